@@ -1,11 +1,848 @@
 import JF.Model.Thinning
-import JF.Lemmas.PyArith
-/-! # C04 — thinning is sound (placeholder, being filled) -/
-namespace JF.C04
-open JF JF.Thin
+import Mathlib.MeasureTheory.Measure.Lebesgue.Basic
+import Mathlib.Tactic.Linarith
+import Mathlib.Tactic.Ring
+import Mathlib.Tactic.Positivity
+import Mathlib.Tactic.FieldSimp
+import Mathlib.Algebra.Order.Field.Basic
+import Mathlib.Order.Interval.Set.Basic
+import Mathlib.Algebra.BigOperators.Group.List.Basic
+/-!
+# C04 — Thinning is sound: the bounding rate dominates and acceptance is the exact ratio
 
-theorem confirmLeaf_false_of_nonpos (q d : ℚ) (h : q ≤ 0) : confirmLeaf Ops.rat q d = false := by
-  have : ¬ ((0:ℚ) < q) := not_lt.mpr h
-  simp [confirmLeaf, Ops.rat, this]
+Theorems about the model `JF.Model.Thinning` (the model is tied to /repo by the correspondence run of
+`harness/props/c04.py`, bit for bit, for all six handlers that confirm events against a bounding rate).
+
+* Part A (kernel, exact reading `α = ℚ`): what the comparisons of the handlers accept; the accepting draws form the
+  interval `[0, max(0,q)/b)`; thinned-rate identity; the summed bound dominates.
+* Part B (handlers, **every scalar type and every `Ops`**, so also binary64): `send_out_state` confirms exactly
+  when the kernel comparison says so, an unconfirmed event returns the proposal state unchanged (all velocities,
+  time stamps, positions, identifiers), the warning is a flag and never changes the outcome.
+* Part C (exact reading): the two combined: with a dominating bound, P(confirm) = max(0,q)/b.
+* Part D: the scaled 1/r bound: sign, and the reduction of "every charge sign, every separation of the
+  minimum-image cube, every direction" to the hypothesis `Dominates` on the positive half for unit charges.
+
+`Dominates` itself (a supremum of a transcendental ratio with margin 1e-4) is a HYPOTHESIS: it is not proved
+here; the check searches for a failing input numerically on the compiled C routines.
+-/
+namespace JF.C04
+open JF JF.Thin MeasureTheory
+
+/-! ## Part A — the decision kernel, exact reading -/
+
+
+@[simp] theorem rat0 : Ops.rat.ofInt 0 = (0:ℚ) := by simp [Ops.rat]
+theorem confirmLeaf_iff (q d : ℚ) : confirmLeaf Ops.rat q d = true ↔ 0 < q ∧ d < q := by
+  simp [confirmLeaf]
+theorem confirmComposite_iff (e d : ℚ) : confirmComposite e d = true ↔ d < e := by
+  simp [confirmComposite]
+theorem pymax0_eq (x : ℚ) : pymax0 Ops.rat x = max 0 x := by
+  unfold pymax0; simp only [rat0]
+  split
+  · next h => exact (max_eq_right h.le).symm
+  · next h => exact (max_eq_left (not_lt.mp h)).symm
+theorem pyUniform_rat (b r : ℚ) : pyUniform (Ops.rat.ofInt 0) b r = b * r := by
+  simp [pyUniform]
+
+/-- for non-negative draws the two ways the handlers write the comparison accept the same draws:
+exactly those below `max 0 q` -/
+theorem accept_iff_lt_max (q d : ℚ) (hd : 0 ≤ d) :
+    (confirmLeaf Ops.rat q d = true ↔ d < max 0 q) ∧
+    (confirmComposite (pymax0 Ops.rat q) d = true ↔ d < max 0 q) := by
+  rw [confirmLeaf_iff, confirmComposite_iff, pymax0_eq]
+  refine ⟨⟨fun ⟨_, h⟩ => lt_max_of_lt_right h, fun h => ?_⟩, Iff.rfl⟩
+  rcases lt_max_iff.mp h with h | h
+  · exact absurd h (not_lt.mpr hd)
+  · exact ⟨lt_of_le_of_lt hd h, h⟩
+
+/-- the accepting values of `random()` form the interval `[0, max(0,q)/b)` -/
+theorem accept_unit_iff (b q r : ℚ) (hb : 0 < b) (hr : 0 ≤ r) :
+    confirmLeaf Ops.rat q (pyUniform (Ops.rat.ofInt 0) b r) = true ↔ r < max 0 q / b := by
+  rw [pyUniform_rat, (accept_iff_lt_max q (b * r) (mul_nonneg hb.le hr)).1, lt_div_iff₀ hb, mul_comm]
+
+theorem accept_set (b q : ℚ) (hb : 0 < b) (hq : q ≤ b) :
+    {r : ℚ | 0 ≤ r ∧ r < 1 ∧ confirmLeaf Ops.rat q (pyUniform (Ops.rat.ofInt 0) b r) = true}
+      = Set.Ico 0 (max 0 q / b) ∧ 0 ≤ max 0 q / b ∧ max 0 q / b ≤ 1 := by
+  have h1 : max 0 q / b ≤ 1 := by
+    rw [div_le_one hb]; exact max_le hb.le hq
+  refine ⟨?_, div_nonneg (le_max_left _ _) hb.le, h1⟩
+  ext r
+  simp only [Set.mem_ofPred_eq, Set.mem_Ico]
+  constructor
+  · rintro ⟨h0, _, h⟩; exact ⟨h0, (accept_unit_iff b q r hb h0).mp h⟩
+  · rintro ⟨h0, h⟩; exact ⟨h0, lt_of_lt_of_le h h1, (accept_unit_iff b q r hb h0).mpr h⟩
+
+theorem thinned_rate (b q : ℚ) (hb : 0 < b) : b * (max 0 q / b) = max 0 q := by
+  field_simp
+
+theorem summedBound_eq (bds : List ℚ) : summedBound Ops.rat bds = (bds.map (max 0)).sum := by
+  unfold summedBound
+  have : ∀ (l : List ℚ) (a : ℚ), l.foldl (fun acc bd => acc + pymax0 Ops.rat bd) a = a + (l.map (max 0)).sum := by
+    intro l; induction l with
+    | nil => intro a; simp
+    | cons x xs ih => intro a; rw [List.foldl_cons, ih, pymax0_eq, List.map_cons, List.sum_cons]; ring
+  rw [this]; simp
+
+theorem factorDerivative_eq (qs : List ℚ) : factorDerivative Ops.rat qs = qs.sum := by
+  unfold factorDerivative
+  have : ∀ (l : List ℚ) (a : ℚ), l.foldl (fun acc q => acc + q) a = a + l.sum := by
+    intro l; induction l with
+    | nil => intro a; simp
+    | cons x xs ih => intro a; simp only [List.foldl_cons, List.sum_cons, ih]; ring
+  rw [this]; simp
+
+theorem summed_dominates (qs bds : List ℚ) (h : List.Forall₂ (· ≤ ·) qs bds) :
+    pymax0 Ops.rat (factorDerivative Ops.rat qs) ≤ summedBound Ops.rat bds := by
+  rw [pymax0_eq, summedBound_eq, factorDerivative_eq]
+  induction h with
+  | nil => simp
+  | cons hab _ ih =>
+    simp only [List.sum_cons, List.map_cons]
+    rename_i a b l₁ l₂ _
+    have h0 : (0:ℚ) ≤ (l₂.map (max 0)).sum := le_trans (le_max_left _ _) ih
+    have h1 : l₁.sum ≤ (l₂.map (max 0)).sum := le_trans (le_max_right _ _) ih
+    have h2 : a ≤ max 0 b := le_trans hab (le_max_right _ _)
+    have h3 : (0:ℚ) ≤ max 0 b := le_max_left _ _
+    apply max_le <;> linarith
+
+
+/-! ### the probability statement proper (real reading, Lebesgue measure on `random()` ∈ [0,1)) -/
+
+/-- an `Ops ℝ` for the real reading (only the literal `ofInt` is used by the comparisons) -/
+noncomputable def Ops.real0 : Ops ℝ where
+  ofInt n := (n : ℝ)
+  floor x := (⌊x⌋ : ℝ)
+  fmod x _ := x
+  toInt x := ⌊x⌋
+  isInf _ := false
+  zeroLike _ := 0
+  sqrt x := x
+
+/-- **The acceptance probability is exactly the ratio.**  Real reading of the comparison the handlers make
+(`α = ℝ`, any `Ops ℝ` whose literal `0` is `0`): if `random()` is uniform on `[0,1)` (Lebesgue measure), the set of
+values for which `random.uniform(0, b) < q` confirms the event has measure `max(0,q)/b`, for every bound `b > 0`
+that dominates `q`. -/
+theorem accept_probability (o : Ops ℝ) (ho : o.ofInt 0 = 0) (b q : ℝ) (hb : 0 < b) (hq : q ≤ b) :
+    volume {r : ℝ | r ∈ Set.Ico (0:ℝ) 1 ∧ confirmLeaf o q (pyUniform (o.ofInt 0) b r) = true}
+      = ENNReal.ofReal (max 0 q / b) := by
+  have hset : {r : ℝ | r ∈ Set.Ico (0:ℝ) 1 ∧ confirmLeaf o q (pyUniform (o.ofInt 0) b r) = true}
+      = Set.Ico 0 (max 0 q / b) := by
+    ext r
+    simp only [Set.mem_ofPred_eq, Set.mem_Ico, confirmLeaf, pyUniform, ho, zero_add, sub_zero, Bool.and_eq_true,
+      decide_eq_true_eq]
+    have h1 : max 0 q / b ≤ 1 := by rw [div_le_one hb]; exact max_le hb.le hq
+    constructor
+    · rintro ⟨⟨h0, _⟩, hq0, hlt⟩
+      refine ⟨h0, ?_⟩
+      rw [lt_div_iff₀ hb, mul_comm]
+      exact lt_of_lt_of_le hlt (le_max_right _ _)
+    · rintro ⟨h0, hlt⟩
+      rw [lt_div_iff₀ hb, mul_comm] at hlt
+      have hbr : 0 ≤ b * r := mul_nonneg hb.le h0
+      have hq0 : 0 < q := by
+        rcases lt_max_iff.mp hlt with h | h
+        · exact absurd h (not_lt.mpr hbr)
+        · exact lt_of_le_of_lt hbr h
+      refine ⟨⟨h0, ?_⟩, hq0, ?_⟩
+      · have : b * r < b * 1 := by
+          rw [mul_one]; exact lt_of_lt_of_le hlt (max_le hb.le hq)
+        exact lt_of_mul_lt_mul_left this hb.le
+      · rwa [max_eq_right hq0.le] at hlt
+  rw [hset, Real.volume_Ico, sub_zero]
+
+/-- the same for the comparison of the composite-object handlers, `event_rate <= uniform(0.0, B)` rejects, with
+`event_rate = max(0.0, Σ q_i)` -/
+theorem accept_probability_composite (o : Ops ℝ) (ho : o.ofInt 0 = 0) (B fd : ℝ) (hB : 0 < B)
+    (hE : max 0 fd ≤ B) :
+    volume {r : ℝ | r ∈ Set.Ico (0:ℝ) 1 ∧ confirmComposite (pymax0 o fd) (pyUniform (o.ofInt 0) B r) = true}
+      = ENNReal.ofReal (max 0 fd / B) := by
+  have hmax : pymax0 o fd = max 0 fd := by
+    unfold pymax0; rw [ho]
+    split
+    · next h => exact (max_eq_right h.le).symm
+    · next h => exact (max_eq_left (not_lt.mp h)).symm
+  have hset : {r : ℝ | r ∈ Set.Ico (0:ℝ) 1 ∧ confirmComposite (pymax0 o fd) (pyUniform (o.ofInt 0) B r) = true}
+      = Set.Ico 0 (max 0 fd / B) := by
+    ext r
+    simp only [Set.mem_ofPred_eq, Set.mem_Ico, confirmComposite, pyUniform, ho, zero_add, sub_zero, hmax,
+      Bool.not_eq_true', decide_eq_false_iff_not, not_le]
+    constructor
+    · rintro ⟨⟨h0, _⟩, hlt⟩
+      exact ⟨h0, by rw [lt_div_iff₀ hB, mul_comm]; exact hlt⟩
+    · rintro ⟨h0, hlt⟩
+      rw [lt_div_iff₀ hB, mul_comm] at hlt
+      refine ⟨⟨h0, ?_⟩, hlt⟩
+      have : B * r < B * 1 := by rw [mul_one]; exact lt_of_lt_of_le hlt hE
+      exact lt_of_mul_lt_mul_left this hB.le
+  rw [hset, Real.volume_Ico, sub_zero]
+
+
+/-! ## Part B — the handlers, for every scalar type (in particular binary64) -/
+
+
+section generic
+variable {α : Type} [Add α] [Sub α] [Mul α] [Div α] [Neg α] [LT α] [DecidableLT α] [LE α] [DecidableLE α] [BEq α]
+
+omit [Div α] [LE α] [DecidableLE α] in
+theorem calcLeaf_spec (o : Ops α) (c : Consts α) (et : Time α) (st : List (CNode α)) (ai : Nat) (b q draw : α)
+    (calls : List (Call α)) {st' cf w cs ins u}
+    (h : calcLeaf o c et st ai b q draw calls = .out st' cf w cs ins u) :
+    cf = confirmLeaf o q draw ∧ (cf = false → st' = st) ∧ w = warns o b q ∧ ins = []
+      ∧ (u = if o.ofInt 0 < q then some b else none) := by
+  simp only [calcLeaf] at h
+  simp only [confirmLeaf, warns]
+  iterate 6 (all_goals (try split at h))
+  all_goals (try cases h)
+  all_goals simp_all [warns]
+
+/-- no proposal: the cell-veto handler found the target cell empty -/
+def noProposal (vk kind : Nat) (target : Option (CNode α)) : Prop := kind = vk ∧ target = none
+
+omit [LE α] [DecidableLE α] in
+theorem sendLeaf_spec (o : Ops α) (c : Consts α) (kind : Nat) (uc : Bool) (et : Time α) (st : List (CNode α))
+    (target : Option (CNode α)) (g : Bool) (b q : α) (dr : Draw α) {st' cf w cs ins u}
+    (h : sendLeaf o c kind uc et st target g b q dr = .out st' cf w cs ins u) :
+    (noProposal 3 kind target → cf = false ∧ st' = st ∧ u = none) ∧
+    (¬ noProposal 3 kind target →
+        cf = confirmLeaf o q (dr.get o b) ∧ (cf = false → st' = proposalState 3 kind st target)
+        ∧ w = warns o b q ∧ (u = if o.ofInt 0 < q then some b else none)) := by
+  simp only [sendLeaf] at h
+  split at h
+  · cases h
+  · split at h
+    · next hk =>
+      cases h
+      simp only [Bool.and_eq_true, beq_iff_eq, Option.isNone_iff_eq_none] at hk
+      exact ⟨fun _ => ⟨rfl, rfl, rfl⟩, fun hn => absurd hk hn⟩
+    · next hk =>
+      simp only [Bool.and_eq_true, beq_iff_eq, Option.isNone_iff_eq_none] at hk
+      refine ⟨fun hn => absurd hn hk, fun _ => ?_⟩
+      split at h
+      · cases h
+      · split at h
+        · have := calcLeaf_spec _ _ _ _ _ _ _ _ _ h
+          exact ⟨this.1, this.2.1, this.2.2.1, this.2.2.2.2⟩
+        · cases h
+
+omit [Div α] in
+theorem calcComposite_spec (o : Ops α) (c : Consts α) (kind : Nat) (et : Time α) (st : List (CNode α)) (ai : Nat)
+    (au : LUnit α) (locals targets : List (LUnit α)) (bound fd draw : α) (qs : List α) (pairs : List (List α))
+    (nextId : List Nat) (calls flCalls : List (Call α)) {st' cf w cs ins u}
+    (h : calcComposite o c kind et st ai au locals targets bound fd draw qs pairs nextId calls flCalls
+          = .out st' cf w cs ins u) :
+    cf = confirmComposite (pymax0 o fd) draw ∧ (cf = false → st' = st ∧ ins = [])
+      ∧ w = warns o bound (pymax0 o fd) ∧ u = some bound ∧ (kind ≠ 4 → o.ofInt 0 ≤ bound) := by
+  simp only [calcComposite] at h
+  iterate 6 (all_goals (try split at h))
+  all_goals (try cases h)
+  all_goals simp_all
+
+theorem sendComposite_spec (o : Ops α) (c : Consts α) (kind : Nat) (uc : Bool) (et : Time α) (st : List (CNode α))
+    (target : Option (CNode α)) (g : Bool) (b : α) (bds qs : List α) (pairs : List (List α)) (dr : Draw α)
+    (nextId : List Nat) {st' cf w cs ins u}
+    (h : sendComposite o c kind uc et st target g b bds qs pairs dr nextId = .out st' cf w cs ins u) :
+    (noProposal 6 kind target → cf = false ∧ st' = st ∧ u = none) ∧
+    (¬ noProposal 6 kind target →
+        cf = confirmComposite (pymax0 o (factorDerivative o qs)) (dr.get o (compositeBound o kind b bds))
+        ∧ (cf = false → st' = proposalState 6 kind st target ∧ ins = [])
+        ∧ w = warns o (compositeBound o kind b bds) (pymax0 o (factorDerivative o qs))
+        ∧ u = some (compositeBound o kind b bds)
+        ∧ (kind ≠ 4 → o.ofInt 0 ≤ compositeBound o kind b bds)) := by
+  simp only [sendComposite] at h
+  split at h
+  · cases h
+  · split at h
+    · next hk =>
+      cases h
+      simp only [Bool.and_eq_true, beq_iff_eq, Option.isNone_iff_eq_none] at hk
+      exact ⟨fun _ => ⟨rfl, rfl, rfl⟩, fun hn => absurd hk hn⟩
+    · next hk =>
+      simp only [Bool.and_eq_true, beq_iff_eq, Option.isNone_iff_eq_none] at hk
+      refine ⟨fun hn => absurd hn hk, fun _ => ?_⟩
+      split at h
+      · cases h
+      · split at h
+        · exact calcComposite_spec _ _ _ _ _ _ _ _ _ _ _ _ _ _ _ _ _ h
+        · cases h
+
+end generic
+
+/-! ## Part C — handlers in the exact reading: the acceptance probability is the exact ratio -/
+
+theorem draw_unit_rat (b r : ℚ) : (Draw.unit r).get Ops.rat b = b * r := by
+  simp [Draw.get, pyUniform]
+
+/-- **Two-leaf-unit handlers (kinds 1–3).**  A proposal with bounding rate `b > 0` and true derivative `q ≤ b`,
+decided with `random() = r ∈ [0,1)`:
+the event is confirmed iff `r < max(0,q)/b` (so with probability exactly `max(0,q)/b ∈ [0,1]`), an unconfirmed
+event returns the proposal state unchanged, and no warning is logged. -/
+theorem leaf_thinning_exact (c : Consts ℚ) (kind : Nat) (uc : Bool) (et : Time ℚ) (st : List (CNode ℚ))
+    (target : Option (CNode ℚ)) (g : Bool) (b q r : ℚ) (hb : 0 < b) (hq : q ≤ b) (hr : 0 ≤ r)
+    (hp : ¬ noProposal 3 kind target) {st' cf w cs ins u}
+    (h : sendLeaf Ops.rat c kind uc et st target g b q (.unit r) = .out st' cf w cs ins u) :
+    (cf = true ↔ r < max 0 q / b) ∧ (cf = false → st' = proposalState 3 kind st target) ∧ w = false
+      ∧ 0 ≤ max 0 q / b ∧ max 0 q / b ≤ 1 := by
+  obtain ⟨h1, h2, h3, _⟩ := (sendLeaf_spec _ _ _ _ _ _ _ _ _ _ _ h).2 hp
+  refine ⟨?_, h2, ?_, div_nonneg (le_max_left _ _) hb.le, ?_⟩
+  · rw [h1]; exact accept_unit_iff b q r hb hr
+  · rw [h3]
+    have : ¬ (b < q) := not_lt.mpr hq
+    simp [warns, this]
+  · rw [div_le_one hb]; exact max_le hb.le hq
+
+/-- a two-leaf proposal whose true derivative is not positive is never confirmed (and draws no uniform number),
+whatever the bound and the draw -/
+theorem leaf_nonpos_rejected (c : Consts ℚ) (kind : Nat) (uc : Bool) (et : Time ℚ) (st : List (CNode ℚ))
+    (target : Option (CNode ℚ)) (g : Bool) (b q : ℚ) (dr : Draw ℚ) (hq : q ≤ 0) {st' cf w cs ins u}
+    (h : sendLeaf Ops.rat c kind uc et st target g b q dr = .out st' cf w cs ins u) :
+    cf = false ∧ u = none := by
+  have hs := sendLeaf_spec _ _ _ _ _ _ _ _ _ _ _ h
+  by_cases hp : noProposal 3 kind target
+  · exact ⟨(hs.1 hp).1, (hs.1 hp).2.2⟩
+  · obtain ⟨h1, _, _, h4⟩ := hs.2 hp
+    have : ¬ ((0:ℚ) < q) := not_lt.mpr hq
+    refine ⟨?_, ?_⟩
+    · rw [h1]; simp [confirmLeaf, this]
+    · rw [h4]; simp [this]
+
+/-- **Composite-object handlers (kinds 4–6).**  With bounding rate `B > 0` (`Σ max(0,b_i)` for kind 4, the cell
+bound for kinds 5, 6) and true event rate `E = max(0, Σ q_i) ≤ B`: confirmed iff `r < E/B`; an unconfirmed event
+returns the proposal state unchanged and leaves the lifting scheme untouched; no warning. -/
+theorem composite_thinning_exact (c : Consts ℚ) (kind : Nat) (uc : Bool) (et : Time ℚ) (st : List (CNode ℚ))
+    (target : Option (CNode ℚ)) (g : Bool) (b : ℚ) (bds qs : List ℚ) (pairs : List (List ℚ)) (r : ℚ)
+    (nextId : List Nat) (hB : 0 < compositeBound Ops.rat kind b bds)
+    (hE : max 0 qs.sum ≤ compositeBound Ops.rat kind b bds)
+    (hp : ¬ noProposal 6 kind target) {st' cf w cs ins u}
+    (h : sendComposite Ops.rat c kind uc et st target g b bds qs pairs (.unit r) nextId = .out st' cf w cs ins u) :
+    (cf = true ↔ r < max 0 qs.sum / compositeBound Ops.rat kind b bds)
+      ∧ (cf = false → st' = proposalState 6 kind st target ∧ ins = []) ∧ w = false
+      ∧ 0 ≤ max 0 qs.sum / compositeBound Ops.rat kind b bds
+      ∧ max 0 qs.sum / compositeBound Ops.rat kind b bds ≤ 1 := by
+  obtain ⟨h1, h2, h3, _, _⟩ := (sendComposite_spec _ _ _ _ _ _ _ _ _ _ _ _ _ _ h).2 hp
+  rw [pymax0_eq, factorDerivative_eq] at h1 h3
+  refine ⟨?_, h2, ?_, div_nonneg (le_max_left _ _) hB.le, (div_le_one hB).mpr hE⟩
+  · rw [h1, confirmComposite_iff, draw_unit_rat, lt_div_iff₀ hB, mul_comm]
+  · rw [h3]
+    have : ¬ (compositeBound Ops.rat kind b bds < max 0 qs.sum) := not_lt.mpr hE
+    simp [warns, this]
+
+/-- for the summed handler (kind 4) the hypothesis `E ≤ B` of `composite_thinning_exact` follows from pairwise
+domination `q_i ≤ b_i` -/
+theorem summed_bound_hyp (b : ℚ) (qs bds : List ℚ) (h : List.Forall₂ (· ≤ ·) qs bds) :
+    max 0 qs.sum ≤ compositeBound Ops.rat 4 b bds := by
+  have := summed_dominates qs bds h
+  rwa [pymax0_eq, factorDerivative_eq] at this
+
+/-- zero true rate: a composite proposal with `Σ q_i ≤ 0` is never confirmed when the bound is non-negative
+(in particular when the bound is `0`: `0 <= uniform(0, 0)`) -/
+theorem composite_zero_rate_rejected (c : Consts ℚ) (kind : Nat) (uc : Bool) (et : Time ℚ) (st : List (CNode ℚ))
+    (target : Option (CNode ℚ)) (g : Bool) (b : ℚ) (bds qs : List ℚ) (pairs : List (List ℚ)) (r : ℚ)
+    (nextId : List Nat) (hB : 0 ≤ compositeBound Ops.rat kind b bds) (hE : qs.sum ≤ 0) (hr : 0 ≤ r)
+    {st' cf w cs ins u}
+    (h : sendComposite Ops.rat c kind uc et st target g b bds qs pairs (.unit r) nextId = .out st' cf w cs ins u) :
+    cf = false := by
+  have hs := sendComposite_spec _ _ _ _ _ _ _ _ _ _ _ _ _ _ h
+  by_cases hp : noProposal 6 kind target
+  · exact (hs.1 hp).1
+  · obtain ⟨h1, _⟩ := hs.2 hp
+    rw [pymax0_eq, factorDerivative_eq, max_eq_left hE] at h1
+    rw [h1, draw_unit_rat]
+    have : (0:ℚ) ≤ compositeBound Ops.rat kind b bds * r := mul_nonneg hB hr
+    simp [confirmComposite, this]
+
+/-- the summed bound is never negative (so `uniform(0.0, bound)` is a draw from `[0, bound]`) -/
+theorem summedBound_nonneg (bds : List ℚ) : 0 ≤ summedBound Ops.rat bds := by
+  rw [summedBound_eq]
+  induction bds with
+  | nil => simp
+  | cons x xs ih => simp only [List.map_cons, List.sum_cons]; exact add_nonneg (le_max_left _ _) ih
+
+/-! ## Part D — the 1/r bound -/
+
+
+/-! ### the scaled 1/r bound and the reduction of "all charge signs, all separations" to the positive half -/
+
+/-- `|s|²` -/
+def nsq (s : ℚ × ℚ × ℚ) : ℚ := s.1 * s.1 + s.2.1 * s.2.1 + s.2.2 * s.2.2
+
+/-- mirror image in the direction of motion -/
+def mirror (s : ℚ × ℚ × ℚ) : ℚ × ℚ × ℚ := (-s.1, s.2.1, s.2.2)
+
+/-- the minimum-image cube of a box of length `L` (closed: the boundary planes are included) -/
+def inCube (L : ℚ) (s : ℚ × ℚ × ℚ) : Prop := |s.1| ≤ L / 2 ∧ |s.2.1| ≤ L / 2 ∧ |s.2.2| ≤ L / 2
+
+/-- **Hypothesis of the domination claim** (not provable here; searched numerically by the check):
+`D` is the derivative along `+x` of the true pair potential for unit charges.  On the half `s_x > 0` of the cube
+it is non-negative and at most the bound `k s_x / |s|³`; it is odd under the mirror `s_x ↦ -s_x`. -/
+structure Dominates (pow32 : ℚ → ℚ) (k L : ℚ) (D : ℚ × ℚ × ℚ → ℚ) : Prop where
+  odd : ∀ s, D (mirror s) = - D s
+  nonneg : ∀ s, inCube L s → 0 < s.1 → 0 ≤ D s
+  le : ∀ s, inCube L s → 0 < s.1 → D s ≤ k * s.1 / pow32 (nsq s)
+
+theorem nsq_mirror (s : ℚ × ℚ × ℚ) : nsq (mirror s) = nsq s := by simp [nsq, mirror]
+
+theorem inCube_mirror {L : ℚ} {s : ℚ × ℚ × ℚ} (h : inCube L s) : inCube L (mirror s) := by
+  simpa [inCube, mirror] using h
+
+theorem boundDerivC_eq (pow32 : ℚ → ℚ) (pp : ℚ) (s : ℚ × ℚ × ℚ) :
+    boundDerivC pow32 pp s.1 s.2.1 s.2.2 = pp * s.1 / pow32 (nsq s) := rfl
+
+/-- sign of the bounding derivative: that of `c₁ c₂ s_x` -/
+theorem bound_pos_iff (pow32 : ℚ → ℚ) (hpow : ∀ x, 0 < x → 0 < pow32 x) (k c : ℚ) (hk : 0 < k)
+    (s : ℚ × ℚ × ℚ) (hs : 0 < nsq s) :
+    0 < boundDerivC pow32 (k * c) s.1 s.2.1 s.2.2 ↔ 0 < c * s.1 := by
+  rw [boundDerivC_eq, div_pos_iff_of_pos_right (hpow _ hs), mul_assoc, mul_pos_iff_of_pos_left hk]
+
+/-- **Domination for every charge product and every separation of the cube**, from the hypothesis on the
+positive half: with true derivative `q = c·D(s)` and bounding derivative `b = (k·c)·s_x/|s|³`
+(`c = c₁c₂` of either sign), the bounding event rate `max 0 b` is at least the true event rate `max 0 q`,
+and wherever the true rate is positive the bound is positive and `q ≤ b` (so the acceptance ratio `q/b ≤ 1`). -/
+theorem rate_dominated (pow32 : ℚ → ℚ) (hpow : ∀ x, 0 < x → 0 < pow32 x) (k L : ℚ) (hk : 0 < k)
+    (D : ℚ × ℚ × ℚ → ℚ) (hD : Dominates pow32 k L D) (c : ℚ) (s : ℚ × ℚ × ℚ) (hs : inCube L s) :
+    let q := c * D s
+    let b := boundDerivC pow32 (k * c) s.1 s.2.1 s.2.2
+    max 0 q ≤ max 0 b ∧ (0 < q → 0 < b ∧ q ≤ b) := by
+  intro q b
+  have key : 0 < q → 0 < b ∧ q ≤ b := by
+    intro hq
+    simp only [q] at hq
+    rcases lt_trichotomy s.1 0 with hx | hx | hx
+    · -- negative half: use the mirror image
+      have hm := inCube_mirror hs
+      have hmx : 0 < (mirror s).1 := by simp [mirror]; exact hx
+      have h0 := hD.nonneg _ hm hmx
+      have h1 := hD.le _ hm hmx
+      rw [hD.odd, nsq_mirror] at h1
+      rw [hD.odd] at h0
+      have hDs : D s ≤ 0 := by linarith
+      have hc : c < 0 := by
+        by_contra hc; have hc := not_lt.mp hc
+        have : c * D s ≤ 0 := mul_nonpos_of_nonneg_of_nonpos hc hDs
+        linarith
+      have hn : 0 < nsq s := by
+        have : 0 < s.1 * s.1 := mul_pos_of_neg_of_neg hx hx
+        simp only [nsq]; nlinarith [mul_self_nonneg s.2.1, mul_self_nonneg s.2.2]
+      have hp := hpow _ hn
+      simp only [mirror] at h1
+      have hb : b = (-c) * (k * (-s.1) / pow32 (nsq s)) := by
+        simp only [b, boundDerivC_eq]; ring
+      have hq' : c * D s = (-c) * (- D s) := by ring
+      refine ⟨?_, ?_⟩
+      · rw [hb]; exact mul_pos (by linarith) (div_pos (mul_pos hk (by linarith)) hp)
+      · simp only [q]; rw [hb, hq']; exact mul_le_mul_of_nonneg_left h1 (by linarith)
+    · -- on the symmetry plane the true derivative vanishes
+      have : mirror s = s := by
+        ext <;> simp [mirror, hx]
+      have h := hD.odd s
+      rw [this] at h
+      have : D s = 0 := by linarith
+      rw [this] at hq; simp at hq
+    · have h0 := hD.nonneg _ hs hx
+      have h1 := hD.le _ hs hx
+      have hc : 0 < c := by
+        by_contra hc; have hc := not_lt.mp hc
+        have : c * D s ≤ 0 := mul_nonpos_of_nonpos_of_nonneg hc h0
+        linarith
+      have hn : 0 < nsq s := by
+        have : 0 < s.1 * s.1 := mul_pos hx hx
+        simp only [nsq]; nlinarith [mul_self_nonneg s.2.1, mul_self_nonneg s.2.2]
+      have hp := hpow _ hn
+      have hb : b = c * (k * s.1 / pow32 (nsq s)) := by
+        simp only [b, boundDerivC_eq]; ring
+      refine ⟨?_, ?_⟩
+      · rw [hb]; exact mul_pos hc (div_pos (mul_pos hk hx) hp)
+      · simp only [q]; rw [hb]; exact mul_le_mul_of_nonneg_left h1 hc.le
+  refine ⟨?_, key⟩
+  rcases le_or_gt q 0 with hq | hq
+  · rw [max_eq_left hq]; exact le_max_left _ _
+  · obtain ⟨_, h2⟩ := key hq
+    exact max_le (le_max_left _ _) (le_trans h2 (le_max_right _ _))
+
+/-! ### all three directions: the C routine is called with the separation rotated so that the direction of
+motion comes first -/
+
+theorem nsq_perm3 (d : Nat) (s : ℚ × ℚ × ℚ) : nsq (perm3 d s) = nsq s := by
+  unfold perm3 nsq
+  split <;> simp only <;> ring
+
+theorem inCube_perm3 {L : ℚ} (d : Nat) {s : ℚ × ℚ × ℚ} (h : inCube L s) : inCube L (perm3 d s) := by
+  obtain ⟨h1, h2, h3⟩ := h
+  unfold perm3 inCube
+  split
+  · exact ⟨h1, h2, h3⟩
+  · exact ⟨h2, h3, h1⟩
+  · exact ⟨h3, h1, h2⟩
+
+/-- `InversePowerCoulombBoundingPotential.derivative` for a motion along `+d` with speed `v` is the `x`-routine
+on the rotated separation, times the speed -/
+theorem boundDeriv_eq (pow32 : ℚ → ℚ) (k c1 c2 : ℚ) (d : Nat) (s : ℚ × ℚ × ℚ) (v : ℚ) :
+    boundDeriv pow32 k c1 c2 d s v
+      = boundDerivC pow32 (k * (c1 * c2)) (perm3 d s).1 (perm3 d s).2.1 (perm3 d s).2.2 * v := by
+  simp only [boundDeriv, mul_assoc]
+
+/-- **domination in every direction, for every charge pair and speed**: with the true derivative along `+d`
+being `c₁c₂·D(rotated s)·v` (which is how `MergedImageCoulombPotential.derivative` calls its `x`-routine) -/
+theorem rate_dominated_dir (pow32 : ℚ → ℚ) (hpow : ∀ x, 0 < x → 0 < pow32 x) (k L : ℚ) (hk : 0 < k)
+    (D : ℚ × ℚ × ℚ → ℚ) (hD : Dominates pow32 k L D) (c1 c2 v : ℚ) (hv : 0 < v) (d : Nat)
+    (s : ℚ × ℚ × ℚ) (hs : inCube L s) :
+    let q := c1 * c2 * D (perm3 d s) * v
+    let b := boundDeriv pow32 k c1 c2 d s v
+    max 0 q ≤ max 0 b ∧ (0 < q → 0 < b ∧ q ≤ b) := by
+  intro q b
+  have h := rate_dominated pow32 hpow k L hk D hD (c1 * c2) (perm3 d s) (inCube_perm3 d hs)
+  simp only at h
+  obtain ⟨_, h2⟩ := h
+  have hb : b = boundDerivC pow32 (k * (c1 * c2)) (perm3 d s).1 (perm3 d s).2.1 (perm3 d s).2.2 * v :=
+    boundDeriv_eq _ _ _ _ _ _ _
+  have key : 0 < q → 0 < b ∧ q ≤ b := by
+    intro hq
+    have hq0 : 0 < c1 * c2 * D (perm3 d s) := by
+      by_contra hn
+      have : c1 * c2 * D (perm3 d s) * v ≤ 0 := mul_nonpos_of_nonpos_of_nonneg (not_lt.mp hn) hv.le
+      exact absurd hq (not_lt.mpr this)
+    obtain ⟨hb0, hle⟩ := h2 hq0
+    rw [hb]
+    exact ⟨mul_pos hb0 hv, mul_le_mul_of_nonneg_right hle hv.le⟩
+  refine ⟨?_, key⟩
+  rcases le_or_gt q 0 with hq | hq
+  · rw [max_eq_left hq]; exact le_max_left _ _
+  · obtain ⟨_, h3⟩ := key hq
+    exact max_le (le_max_left _ _) (le_trans h3 (le_max_right _ _))
+
+/-- non-vacuity of `Dominates`: a "true" potential that is 2/3 of the bound (with `pow32 x = x²`, `k = 3/2`) -/
+theorem exDominates : Dominates (fun x => x * x) (3/2) 1 (fun s => s.1 / (nsq s * nsq s)) where
+  odd s := by simp [mirror, nsq]; ring
+  nonneg s _ hx := by
+    apply div_nonneg hx.le (mul_self_nonneg _)
+  le s _ hx := by
+    have hn : 0 < nsq s := by
+      have : 0 < s.1 * s.1 := mul_pos hx hx
+      simp only [nsq]; nlinarith [mul_self_nonneg s.2.1, mul_self_nonneg s.2.2]
+    rw [div_le_div_iff_of_pos_right (mul_pos hn hn)]; linarith
+
+
+
+/-! ## Part E — the property for the model: handlers + 1/r bound under `Dominates` -/
+
+/-- the summed bound dominates already when every pairwise true derivative is below the *positive part* of its
+pairwise bound (a negative pairwise bound contributes `0` to the sum) -/
+theorem summed_dominates' (qs bds : List ℚ) (h : List.Forall₂ (fun q b => q ≤ max 0 b) qs bds) :
+    max 0 qs.sum ≤ (bds.map (max 0)).sum := by
+  induction h with
+  | nil => simp
+  | cons hab _ ih =>
+    simp only [List.sum_cons, List.map_cons]
+    rename_i a b l₁ l₂ _
+    have h0 : (0:ℚ) ≤ (l₂.map (max 0)).sum := le_trans (le_max_left _ _) ih
+    have h1 : l₁.sum ≤ (l₂.map (max 0)).sum := le_trans (le_max_right _ _) ih
+    have h3 : (0:ℚ) ≤ max 0 b := le_max_left _ _
+    apply max_le <;> linarith
+
+theorem warns_false_of_le (b q : ℚ) (h : q ≤ b) : warns Ops.rat b q = false := by
+  simp [warns, not_lt.mpr h]
+
+/-- the true derivative as the handlers obtain it from `MergedImageCoulombPotential.derivative` (prefactor 1):
+`c₁ c₂ · D(rotated separation) · speed` -/
+def trueDeriv (D : ℚ × ℚ × ℚ → ℚ) (c1 c2 : ℚ) (d : Nat) (s : ℚ × ℚ × ℚ) (v : ℚ) : ℚ :=
+  c1 * c2 * D (perm3 d s) * v
+
+/-- **C04 for the two-leaf-unit handlers with the 1/r bound**, under `Dominates`: for every charge pair (both signs),
+every separation of the minimum-image cube, every direction and speed, every `random()` value `r ≥ 0`:
+no warning; an unconfirmed event returns the proposal state unchanged; the event is confirmed iff the true
+derivative `q` is positive and `r < q/b`; and then `0 < b`, `q/b ≤ 1`. -/
+theorem leaf_one_over_r_sound (pow32 : ℚ → ℚ) (hpow : ∀ x, 0 < x → 0 < pow32 x) (k L : ℚ) (hk : 0 < k)
+    (D : ℚ × ℚ × ℚ → ℚ) (hD : Dominates pow32 k L D)
+    (c : Consts ℚ) (kind : Nat) (uc : Bool) (et : Time ℚ) (st : List (CNode ℚ)) (target : Option (CNode ℚ)) (g : Bool)
+    (c1 c2 v : ℚ) (hv : 0 < v) (d : Nat) (s : ℚ × ℚ × ℚ) (hs : inCube L s) (r : ℚ) (hr : 0 ≤ r)
+    (hp : ¬ noProposal 3 kind target) {st' cf w cs ins u}
+    (h : sendLeaf Ops.rat c kind uc et st target g (boundDeriv pow32 k c1 c2 d s v) (trueDeriv D c1 c2 d s v)
+          (.unit r) = .out st' cf w cs ins u) :
+    w = false ∧ (cf = false → st' = proposalState 3 kind st target)
+      ∧ (cf = true ↔ 0 < trueDeriv D c1 c2 d s v ∧ r < trueDeriv D c1 c2 d s v / boundDeriv pow32 k c1 c2 d s v)
+      ∧ (0 < trueDeriv D c1 c2 d s v →
+          0 < boundDeriv pow32 k c1 c2 d s v ∧ trueDeriv D c1 c2 d s v / boundDeriv pow32 k c1 c2 d s v ≤ 1) := by
+  have hdom := (rate_dominated_dir pow32 hpow k L hk D hD c1 c2 v hv d s hs).2
+  change 0 < trueDeriv D c1 c2 d s v → _ at hdom
+  have hspec := (sendLeaf_spec _ _ _ _ _ _ _ _ _ _ _ h).2 hp
+  rcases le_or_gt (trueDeriv D c1 c2 d s v) 0 with hq | hq
+  · have hcf := (leaf_nonpos_rejected _ _ _ _ _ _ _ _ _ _ hq h).1
+    refine ⟨?_, hspec.2.1, ?_, fun h0 => absurd h0 (not_lt.mpr hq)⟩
+    · rw [hspec.2.2.1]; simp [warns, not_lt.mpr hq]
+    · rw [hcf]; simp [not_lt.mpr hq]
+  · obtain ⟨hb, hle⟩ := hdom hq
+    obtain ⟨h1, h2, h3, _, h5⟩ := leaf_thinning_exact c kind uc et st target g (boundDeriv pow32 k c1 c2 d s v)
+      (trueDeriv D c1 c2 d s v) r hb hle hr hp h
+    rw [max_eq_right hq.le] at h1 h5
+    exact ⟨h3, h2, by rw [h1]; simp [hq], fun _ => ⟨hb, h5⟩⟩
+
+/-- pairwise: every true derivative is below the positive part of its 1/r bound -/
+theorem pairwise_dominated (pow32 : ℚ → ℚ) (hpow : ∀ x, 0 < x → 0 < pow32 x) (k L : ℚ) (hk : 0 < k)
+    (D : ℚ × ℚ × ℚ → ℚ) (hD : Dominates pow32 k L D) (ca v : ℚ) (hv : 0 < v) (d : Nat)
+    (tg : List (ℚ × (ℚ × ℚ × ℚ))) (hs : ∀ x ∈ tg, inCube L x.2) :
+    List.Forall₂ (fun q b => q ≤ max 0 b) (tg.map fun x => trueDeriv D ca x.1 d x.2 v)
+      (tg.map fun x => boundDeriv pow32 k ca x.1 d x.2 v) := by
+  induction tg with
+  | nil => exact .nil
+  | cons x xs ih =>
+    refine .cons ?_ (ih (fun y hy => hs y (List.mem_cons_of_mem _ hy)))
+    have := (rate_dominated_dir pow32 hpow k L hk D hD ca x.1 v hv d x.2 (hs x List.mem_cons_self)).1
+    exact le_trans (le_max_right _ _) this
+
+/-- **C04 for the summed composite-object handler (kind 4) with the 1/r bound**, under `Dominates`: `tg` lists the
+target leaf units as (charge, separation from the active unit); the active unit has charge `ca`.  The summed bounding
+rate `B = Σ max(0, b_i)` dominates the true rate `E = max(0, Σ q_i)`; no warning; an unconfirmed event changes
+nothing; the event is confirmed iff `0 < E` and `r < E/B`. -/
+theorem summed_one_over_r_sound (pow32 : ℚ → ℚ) (hpow : ∀ x, 0 < x → 0 < pow32 x) (k L : ℚ) (hk : 0 < k)
+    (D : ℚ × ℚ × ℚ → ℚ) (hD : Dominates pow32 k L D)
+    (c : Consts ℚ) (uc : Bool) (et : Time ℚ) (st : List (CNode ℚ)) (target : Option (CNode ℚ)) (g : Bool) (b0 : ℚ)
+    (ca v : ℚ) (hv : 0 < v) (d : Nat) (tg : List (ℚ × (ℚ × ℚ × ℚ))) (hs : ∀ x ∈ tg, inCube L x.2)
+    (pairs : List (List ℚ)) (r : ℚ) (hr : 0 ≤ r) (nextId : List Nat) {st' cf w cs ins u}
+    (h : sendComposite Ops.rat c 4 uc et st target g b0
+          (tg.map fun x => boundDeriv pow32 k ca x.1 d x.2 v) (tg.map fun x => trueDeriv D ca x.1 d x.2 v)
+          pairs (.unit r) nextId = .out st' cf w cs ins u) :
+    let B := summedBound Ops.rat (tg.map fun x => boundDeriv pow32 k ca x.1 d x.2 v)
+    let E := max 0 (tg.map fun x => trueDeriv D ca x.1 d x.2 v).sum
+    E ≤ B ∧ w = false ∧ (cf = false → st' = st ∧ ins = []) ∧ (cf = true ↔ 0 < E ∧ r < E / B) := by
+  intro B E
+  have hF := pairwise_dominated pow32 hpow k L hk D hD ca v hv d tg hs
+  have hEB : E ≤ B := by
+    have := summed_dominates' _ _ hF
+    simp only [E, B, summedBound_eq]; exact this
+  have hp : ¬ noProposal 6 4 target := by simp [noProposal]
+  have hps : proposalState 6 4 st target = st := by
+    unfold proposalState; cases target <;> simp
+  have hcb : compositeBound Ops.rat 4 b0 (tg.map fun x => boundDeriv pow32 k ca x.1 d x.2 v) = B := by
+    simp [compositeBound, B]
+  obtain ⟨h1, h2, h3, _, _⟩ := (sendComposite_spec _ _ _ _ _ _ _ _ _ _ _ _ _ _ h).2 hp
+  rw [pymax0_eq, factorDerivative_eq, hcb] at h1 h3
+  rw [hps] at h2
+  have hB0 : 0 ≤ B := summedBound_nonneg _
+  refine ⟨hEB, ?_, h2, ?_⟩
+  · rw [h3]; exact warns_false_of_le _ _ hEB
+  · rw [h1, confirmComposite_iff, draw_unit_rat]
+    change B * r < E ↔ 0 < E ∧ r < E / B
+    rcases eq_or_lt_of_le hB0 with hB | hB
+    · -- B = 0, hence E = 0: never confirmed
+      have hE0 : E = 0 := le_antisymm (by rw [← hB] at hEB; exact hEB) (le_max_left _ _)
+      rw [← hB, hE0]; simp
+    · rw [lt_div_iff₀ hB, mul_comm]
+      constructor
+      · intro hlt; exact ⟨lt_of_le_of_lt (mul_nonneg hr hB.le) hlt, hlt⟩
+      · exact fun hh => hh.2
+
+
+/-! ## Part F — `_fill_lifting` (exact reading) -/
+
+/-! ### the derivative table handed to the lifting scheme sums to zero -/
+
+theorem sum_zipWith_sub (ts row : List ℚ) (h : row.length = ts.length) :
+    (List.zipWith (fun t p => t - p) ts row).sum = ts.sum - row.sum := by
+  induction ts generalizing row with
+  | nil => cases row with
+    | nil => simp
+    | cons _ _ => simp at h
+  | cons t ts ih => cases row with
+    | nil => simp at h
+    | cons p ps =>
+      simp only [List.zipWith_cons_cons, List.sum_cons]
+      rw [ih ps (by simpa using h)]; ring
+
+theorem foldl_add_rat (l : List ℚ) : l.foldl (fun s p => s + p) 0 = l.sum := by
+  have : ∀ (l : List ℚ) (a : ℚ), l.foldl (fun s p => s + p) a = a + l.sum := by
+    intro l; induction l with
+    | nil => intro a; simp
+    | cons x xs ih => intro a; rw [List.foldl_cons, ih, List.sum_cons]; ring
+  rw [this]; simp
+
+/-- the accumulator of `_fill_lifting`'s double loop -/
+def flStep (A : ℚ) (acc : List ℚ × List ℚ) (lp : (List Nat × Bool) × List ℚ) : List ℚ × List ℚ :=
+  if lp.1.2 then (acc.1 ++ [A], acc.2)
+  else (acc.1 ++ [lp.2.foldl (fun s p => s + p) 0], List.zipWith (fun t p => t - p) acc.2 lp.2)
+
+theorem flStep_fold (A : ℚ) (l : List ((List Nat × Bool) × List ℚ)) (acc : List ℚ × List ℚ)
+    (hrows : ∀ lp ∈ l, lp.2.length = acc.2.length) :
+    let r := l.foldl (flStep A) acc
+    r.1.sum + r.2.sum = acc.1.sum + acc.2.sum + ((l.filter (fun lp => lp.1.2)).length : ℚ) * A
+      ∧ r.1.length = acc.1.length + l.length ∧ r.2.length = acc.2.length := by
+  induction l generalizing acc with
+  | nil => simp
+  | cons lp l ih =>
+    simp only [List.foldl_cons]
+    have hlp := hrows lp List.mem_cons_self
+    by_cases ha : lp.1.2 = true
+    · have hs : flStep A acc lp = (acc.1 ++ [A], acc.2) := by simp [flStep, ha]
+      rw [hs]
+      obtain ⟨h1, h2, h3⟩ := ih (acc.1 ++ [A], acc.2) (fun x hx => hrows x (List.mem_cons_of_mem _ hx))
+      refine ⟨?_, ?_, h3⟩
+      · rw [h1]; simp [ha]; ring
+      · rw [h2]; simp; ring
+    · have hs : flStep A acc lp
+          = (acc.1 ++ [lp.2.foldl (fun s p => s + p) 0], List.zipWith (fun t p => t - p) acc.2 lp.2) := by
+        simp [flStep, ha]
+      rw [hs]
+      have hl : (List.zipWith (fun t p => t - p) acc.2 lp.2).length = acc.2.length := by
+        simp [hlp]
+      obtain ⟨h1, h2, h3⟩ := ih (acc.1 ++ [lp.2.foldl (fun s p => s + p) 0], List.zipWith (fun t p => t - p) acc.2 lp.2)
+        (fun x hx => by simp only; rw [hl]; exact hrows x (List.mem_cons_of_mem _ hx))
+      refine ⟨?_, ?_, by rw [h3, hl]⟩
+      · rw [h1]; simp only [List.sum_append, List.sum_cons, List.sum_nil, foldl_add_rat,
+          sum_zipWith_sub _ _ hlp, List.filter_cons, ha]
+        simp
+      · rw [h2]; simp only [List.length_append, List.length_cons, List.length_nil]; ring
+
+theorem filter_zip_length (locals : List (List Nat × Bool)) (pairs : List (List ℚ)) (h : pairs.length = locals.length) :
+    ((locals.zip pairs).filter (fun lp => lp.1.2)).length = (locals.filter (·.2)).length := by
+  induction locals generalizing pairs with
+  | nil => simp
+  | cons l ls ih => cases pairs with
+    | nil => simp at h
+    | cons p ps =>
+      have := ih ps (by simpa using h)
+      by_cases hl : l.2 = true <;> simp [hl, this]
+
+/-- **sum of the derivative table**: the derivatives `_fill_lifting` inserts into the lifting scheme add up to
+(number of active local units)·`activeDeriv` + Σ target derivatives — the pairwise terms between non-active local
+units and target units cancel. -/
+theorem fillLifting_sum (locals : List (List Nat × Bool)) (targets : List (List Nat)) (A : ℚ) (tds : List ℚ)
+    (pairs : List (List ℚ)) (hp : pairs.length = locals.length) (hrows : ∀ row ∈ pairs, row.length = tds.length)
+    (ht : targets.length = tds.length) :
+    ((fillLifting Ops.rat locals targets A tds pairs).map (·.1)).sum
+      = ((locals.filter (·.2)).length : ℚ) * A + tds.sum := by
+  have hfold := flStep_fold A (locals.zip pairs) ([], tds)
+    (fun lp hlp => hrows lp.2 (List.of_mem_zip hlp).2)
+  simp only at hfold
+  obtain ⟨h1, h2, h3⟩ := hfold
+  have hstep : (fun (acc : List ℚ × List ℚ) (lp : (List Nat × Bool) × List ℚ) =>
+      if lp.1.2 = true then (acc.1 ++ [A], acc.2)
+      else (acc.1 ++ [lp.2.foldl (fun s p => s + p) (Ops.rat.ofInt 0)],
+            List.zipWith (fun t p => t - p) acc.2 lp.2)) = flStep A := by
+    funext acc lp; simp [flStep]
+  unfold fillLifting
+  simp only [hstep]
+  generalize List.foldl (flStep A) ([], tds) (locals.zip pairs) = r at h1 h2 h3 ⊢
+  have hl1 : r.1.length = locals.length := by
+    rw [h2]; simp [List.length_zip, hp]
+  have hl2 : r.2.length = targets.length := by rw [h3, ht]
+  have e1 : (((locals.zip r.1).map fun (x : (List Nat × Bool) × ℚ) => (x.2, x.1.1, x.1.2)).map (·.1)) = r.1 := by
+    rw [List.map_map]
+    have : ((fun (x : ℚ × List Nat × Bool) => x.1) ∘ fun (x : (List Nat × Bool) × ℚ) => (x.2, x.1.1, x.1.2)) = Prod.snd := by
+      funext x; rfl
+    rw [this]; exact List.map_snd_zip (by omega)
+  have e2 : (((targets.zip r.2).map fun (x : List Nat × ℚ) => (x.2, x.1, false)).map (·.1)) = r.2 := by
+    rw [List.map_map]
+    have : ((fun (x : ℚ × List Nat × Bool) => x.1) ∘ fun (x : List Nat × ℚ) => (x.2, x.1, false)) = Prod.snd := by
+      funext x; rfl
+    rw [this]; exact List.map_snd_zip (by omega)
+  have hcount := filter_zip_length locals pairs hp
+  have hsum : r.1.sum + r.2.sum = ((locals.filter (·.2)).length : ℚ) * A + tds.sum := by
+    rw [h1, hcount]; simp; ring
+  split
+  · rw [List.map_append, List.sum_append, e1, e2]; exact hsum
+  · rw [List.map_append, List.sum_append, e1, e2, add_comm]; exact hsum
+
+theorem targetDerivs_sum (qs : List ℚ) : (targetDerivs Ops.rat qs).sum = - qs.sum := by
+  unfold targetDerivs
+  induction qs with
+  | nil => simp
+  | cons x xs ih =>
+    simp only [List.map_cons, List.sum_cons, rat0, zero_sub] at ih ⊢
+    rw [ih]; ring
+
+/-- … hence it **sums to zero** for the table the composite handlers build: one active local unit carrying the
+factor derivative `Σ q_i`, target entries starting from `0 - q_i` -/
+theorem fillLifting_sum_zero (locals : List (List Nat × Bool)) (targets : List (List Nat)) (qs : List ℚ)
+    (pairs : List (List ℚ)) (hone : (locals.filter (·.2)).length = 1) (hp : pairs.length = locals.length)
+    (hrows : ∀ row ∈ pairs, row.length = qs.length) (ht : targets.length = qs.length) :
+    ((fillLifting Ops.rat locals targets (factorDerivative Ops.rat qs) (targetDerivs Ops.rat qs) pairs).map (·.1)).sum
+      = 0 := by
+  have hl : (targetDerivs Ops.rat qs).length = qs.length := by simp [targetDerivs]
+  rw [fillLifting_sum _ _ _ _ _ hp (fun row hr => by rw [hl]; exact hrows row hr) (by rw [hl]; exact ht), hone,
+    factorDerivative_eq]
+  have := targetDerivs_sum qs
+  rw [this]; simp
+
+
+/-! ## Non-vacuity: concrete proposals (kernel-evaluated on the exact reading of the model) that meet the
+hypotheses of the theorems above, one confirmed and one rejected each -/
+
+/-- the confirmation flag of an out-state result -/
+def confirmed? {α : Type} : Res α → Option Bool
+  | .out _ cf _ _ _ _ => some cf
+  | _ => none
+
+theorem exists_out_of_confirmed? {α : Type} {r : Res α} {cf : Bool} (h : confirmed? r = some cf) :
+    ∃ st' w cs ins u, r = .out st' cf w cs ins u := by
+  cases r with
+  | out st' cf' w cs ins u => simp only [confirmed?, Option.some.injEq] at h; subst h; exact ⟨_, _, _, _, _, rfl⟩
+  | err t => simp [confirmed?] at h
+  | invalid => simp [confirmed?] at h
+
+def exA : CNode ℚ := ⟨⟨[0], [1/10, 2/10, 3/10], 1, some [1, 0, 0], some ⟨5, 1/4⟩⟩, 1, []⟩
+def exB : CNode ℚ := ⟨⟨[1], [6/10, 2/10, 9/10], -1, none, none⟩, 1, []⟩
+def exC : Consts ℚ := ⟨1, 1/10^13⟩
+
+example : confirmed? (sendLeaf Ops.rat exC 1 true ⟨5, 1/4⟩ [exA, exB] none true 2 1 (.unit (1/4))) = some true := by
+  decide +kernel
+example : confirmed? (sendLeaf Ops.rat exC 1 true ⟨5, 1/4⟩ [exA, exB] none true 2 1 (.unit (3/4))) = some false := by
+  decide +kernel
+
+
+/-- two dipoles `(0,·)` (active leaf `(0,1)`) and `(3,·)` -/
+def dipA : CNode ℚ :=
+  ⟨⟨[0], [1/10, 2/10, 3/10], 0, some [1/2, 0, 0], some ⟨5, 1/4⟩⟩, 1,
+   [(⟨[0, 0], [1/10, 2/10, 3/10], 1, none, none⟩, 1/2),
+    (⟨[0, 1], [2/10, 2/10, 3/10], -1, some [1, 0, 0], some ⟨5, 1/4⟩⟩, 1/2)]⟩
+def dipB : CNode ℚ :=
+  ⟨⟨[3], [6/10, 7/10, 3/10], 0, none, none⟩, 1,
+   [(⟨[3, 0], [6/10, 7/10, 3/10], 1, none, none⟩, 1/2),
+    (⟨[3, 1], [7/10, 7/10, 3/10], -1, none, none⟩, 1/2)]⟩
+
+-- kind 4: bounds (2, -1) -> Σ max(0,·) = 2; true derivatives (3/2, -1) -> rate 1/2; r = 1/8 < 1/4: confirmed
+example : confirmed? (sendComposite Ops.rat ⟨1, 1/10^13⟩ 4 true ⟨5, 1/4⟩ [dipB, dipA] none true 0 [2, -1] [3/2, -1]
+    [[1/3, -1/5], [0, 0]] (.unit (1/8)) [3, 1]) = some true := by decide +kernel
+example : confirmed? (sendComposite Ops.rat ⟨1, 1/10^13⟩ 4 true ⟨5, 1/4⟩ [dipB, dipA] none true 0 [2, -1] [3/2, -1]
+    [[1/3, -1/5], [0, 0]] (.unit (1/2)) [3, 1]) = some false := by decide +kernel
+example : List.Forall₂ (· ≤ ·) [(3/2 : ℚ), -1] [2, -1] := by
+  refine .cons (by norm_num) (.cons (by norm_num) .nil)
+
+
+/-- the hypotheses of `leaf_thinning_exact` are met by the confirmed atom example (`b = 2`, `q = 1`, `r = 1/4`) -/
+example : ∃ st' w cs ins u, sendLeaf Ops.rat exC 1 true ⟨5, 1/4⟩ [exA, exB] none true 2 1 (.unit (1/4))
+    = .out st' true w cs ins u := exists_out_of_confirmed? (by decide +kernel)
+
+/-- … and those of `composite_thinning_exact` / `summed_bound_hyp` by the dipole example -/
+example : ∃ st' w cs ins u, sendComposite Ops.rat ⟨1, 1/10^13⟩ 4 true ⟨5, 1/4⟩ [dipB, dipA] none true 0 [2, -1]
+    [3/2, -1] [[1/3, -1/5], [0, 0]] (.unit (1/8)) [3, 1] = .out st' true w cs ins u :=
+  exists_out_of_confirmed? (by decide +kernel)
+example : (0:ℚ) < compositeBound Ops.rat 4 0 [2, -1] ∧ max 0 ([3/2, -1] : List ℚ).sum ≤ compositeBound Ops.rat 4 0 [2, -1] := by
+  refine ⟨by decide +kernel, summed_bound_hyp 0 _ _ (.cons (by norm_num) (.cons (by norm_num) .nil))⟩
+example := accept_set 2 1 (by norm_num) (by norm_num)
+example := accept_probability Ops.real0 (by simp [Ops.real0]) 2 1 (by norm_num) (by norm_num)
+
+/-- the end-to-end theorem applies to a concrete confirmed proposal: separation `(1/4, 1/4, 0)`, unit charges,
+`D`, `pow32`, `k` of `exDominates`: `q = 16`, `b = 24`, `r = 1/2 < 2/3` -/
+example : ∃ st' w cs ins u, sendLeaf Ops.rat exC 1 true ⟨5, 1/4⟩ [exA, exB] none true
+    (boundDeriv (fun x => x * x) (3/2) 1 1 0 (1/4, 1/4, 0) 1)
+    (trueDeriv (fun s => s.1 / (nsq s * nsq s)) 1 1 0 (1/4, 1/4, 0) 1) (.unit (1/2)) = .out st' true w cs ins u :=
+  exists_out_of_confirmed? (by decide +kernel)
+example : inCube 1 ((1/4, 1/4, 0) : ℚ × ℚ × ℚ) := by
+  simp only [inCube]; norm_num [abs_of_nonneg]
+
+/-- `fillLifting_sum_zero` on the dipole example's table -/
+example := fillLifting_sum_zero [([0, 0], false), ([0, 1], true)] [[3, 0], [3, 1]] [3/2, -1] [[1/3, -1/5], [0, 0]]
+  (by decide) rfl (by simp) rfl
+
+/-! ### binary64 boundary facts (kernel-evaluated on the float reading the driver runs) -/
+
+/-- a draw equal to the true rate is rejected by both ways of writing the comparison -/
+example : confirmLeaf Ops.float 0.5 0.5 = false ∧ confirmComposite (pymax0 Ops.float 0.5) 0.5 = false := by
+  decide +kernel
+/-- zero true rate (`±0.0`), draw `0.0` (e.g. `uniform(0.0, 0.0)`): rejected -/
+example : confirmLeaf Ops.float 0.0 0.0 = false ∧ confirmComposite (pymax0 Ops.float (-0.0)) 0.0 = false
+    ∧ confirmComposite (pymax0 Ops.float (-1.5)) (pyUniform (Ops.float.ofInt 0) 0.0 0.75) = false := by
+  decide +kernel
+/-- the smallest draw `0.0` confirms every positive rate, however small -/
+example : confirmLeaf Ops.float 5e-324 0.0 = true ∧ confirmComposite (pymax0 Ops.float 5e-324) 0.0 = true := by
+  decide +kernel
 
 end JF.C04
